@@ -179,3 +179,125 @@ Print Assumptions C17_same_skeleton_nushell.
 Theorem C17_bash_no_text : bash_uses_text = false.
 Proof. exact bash_no_text. Qed.
 Print Assumptions C17_bash_no_text.
+
+(* ---- powershell / elvish generator models ---- *)
+(** Whole-script structure invariance, composed through the byte-exact generator models
+    (Complete/ElvishModel.v, Complete/PowershellModel.v; texts of the tree in a [TextTree.ttree]):
+    which slot is written through which escape function is no longer an oracle-only fact for these
+    two shells.  Class: [cmd_plain plain c] -- every name the generator writes (bin name, names,
+    aliases, shorts, longs and their aliases of every node) consists of [plain] characters.
+    Names are qualified: the two model files reuse the Rust names. *)
+From ClapModel Require Complete.AotTree Complete.AotProofs Complete.TextTree Complete.PathTable Complete.PathTableLex
+  Complete.BuildTexts Complete.ElvishModel Complete.ElvishProofs Complete.PowershellModel Complete.PowershellProofs.
+
+(** elvish: [el_plain c] = c is neither quote character (39, 34) nor the comment sign (35).  For ANY two assignments of description texts to the
+    same built tree (help / about present or absent, empty or not, any characters) the ENTIRE scripts
+    have the same token skeleton and leave the lexer in the same state *)
+Theorem C17_elvish_script_structure : forall c t1 t2 s1 s2,
+  AotProofs.bins_built c -> PathTableLex.cmd_plain ElvishProofs.el_plain c = true ->
+  ElvishModel.generate c t1 = Some s1 -> ElvishModel.generate c t2 = Some s2 ->
+  skeleton (events el_step EB s1) = skeleton (events el_step EB s2) /\
+  final el_step EB s1 = final el_step EB s2.
+Proof. exact ElvishProofs.elvish_script_structure. Qed.
+Print Assumptions C17_elvish_script_structure.
+
+(** each text occurs only inside a string literal: the skeleton is the skeleton of the script generated
+    with no description text at all, and every literal is closed when the script ends *)
+Theorem C17_elvish_text_is_payload : forall c t s s0,
+  AotProofs.bins_built c -> PathTableLex.cmd_plain ElvishProofs.el_plain c = true ->
+  ElvishModel.generate c t = Some s -> ElvishModel.generate c TextTree.tt_none = Some s0 ->
+  skeleton (events el_step EB s) = skeleton (events el_step EB s0) /\ final el_step EB s = EB.
+Proof. exact ElvishProofs.elvish_text_is_payload. Qed.
+Print Assumptions C17_elvish_text_is_payload.
+
+(** the same for [clap_complete::aot::generate] as a whole ([set_bin_name], [Command::build] incl. the
+    generated help/version texts and the copied about texts of the help subtree, then the generator) *)
+Theorem C17_elvish_generate_structure : forall c bin t1 t2 b s1 s2,
+  AotTree.build (AotTree.set_bin_name c bin) = Some b -> PathTableLex.cmd_plain ElvishProofs.el_plain b = true ->
+  ElvishModel.generate_elvish c t1 bin = Some s1 -> ElvishModel.generate_elvish c t2 bin = Some s2 ->
+  skeleton (events el_step EB s1) = skeleton (events el_step EB s2) /\
+  final el_step EB s1 = final el_step EB s2.
+Proof. exact ElvishProofs.elvish_generate_structure. Qed.
+Print Assumptions C17_elvish_generate_structure.
+
+(** the hypotheses are satisfiable (a built two-level tree; texts with quotes, newline, dollar-paren, empty / absent) *)
+Theorem C17_elvish_structure_nonvacuous :
+  exists s1 s2,
+    AotTree.build (AotTree.set_bin_name PathTable.ex_tree [112]) = Some PathTable.ex_built /\
+    PathTableLex.cmd_plain ElvishProofs.el_plain PathTable.ex_built = true /\
+    ElvishModel.generate_elvish PathTable.ex_tree PathTable.ex_texts [112] = Some s1 /\
+    ElvishModel.generate_elvish PathTable.ex_tree ElvishProofs.ex_texts2 [112] = Some s2 /\ s1 <> s2.
+Proof. exact ElvishProofs.elvish_structure_nonvacuous. Qed.
+Print Assumptions C17_elvish_structure_nonvacuous.
+
+(** the class is sharp: names are not escaped, and with a quote in a subcommand name the about text of
+    that subcommand changes the skeleton (replayed on the real generator) *)
+Theorem C17_elvish_quote_in_name_refuted :
+  exists c bin t1 t2 s1 s2,
+    ElvishModel.generate_elvish c t1 bin = Some s1 /\ ElvishModel.generate_elvish c t2 bin = Some s2 /\
+    skeleton (events el_step EB s1) <> skeleton (events el_step EB s2).
+Proof. exact ElvishProofs.elvish_quote_in_name_refuted. Qed.
+Print Assumptions C17_elvish_quote_in_name_refuted.
+
+(** PowerShell: [ps_plain c] = c is none of the five single-quote characters, the four double-quote
+    characters of the tokenizer, and the comment sign; for every [is_uppercase] *)
+Theorem C17_powershell_script_structure : forall up c t1 t2 s1 s2,
+  AotProofs.bins_built c -> PathTableLex.cmd_plain PowershellProofs.ps_plain c = true ->
+  PowershellModel.generate up c t1 = Some s1 -> PowershellModel.generate up c t2 = Some s2 ->
+  skeleton (events ps_step PB s1) = skeleton (events ps_step PB s2) /\
+  final ps_step PB s1 = final ps_step PB s2.
+Proof. exact PowershellProofs.powershell_script_structure. Qed.
+Print Assumptions C17_powershell_script_structure.
+
+Theorem C17_powershell_text_is_payload : forall up c t s s0,
+  AotProofs.bins_built c -> PathTableLex.cmd_plain PowershellProofs.ps_plain c = true ->
+  PowershellModel.generate up c t = Some s -> PowershellModel.generate up c TextTree.tt_none = Some s0 ->
+  skeleton (events ps_step PB s) = skeleton (events ps_step PB s0) /\ final ps_step PB s = PB.
+Proof. exact PowershellProofs.powershell_text_is_payload. Qed.
+Print Assumptions C17_powershell_text_is_payload.
+
+Theorem C17_powershell_generate_structure : forall up c bin t1 t2 b s1 s2,
+  AotTree.build (AotTree.set_bin_name c bin) = Some b -> PathTableLex.cmd_plain PowershellProofs.ps_plain b = true ->
+  PowershellModel.generate_powershell up c t1 bin = Some s1 ->
+  PowershellModel.generate_powershell up c t2 bin = Some s2 ->
+  skeleton (events ps_step PB s1) = skeleton (events ps_step PB s2) /\
+  final ps_step PB s1 = final ps_step PB s2.
+Proof. exact PowershellProofs.powershell_generate_structure. Qed.
+Print Assumptions C17_powershell_generate_structure.
+
+Theorem C17_powershell_structure_nonvacuous :
+  exists s1 s2,
+    AotTree.build (AotTree.set_bin_name PathTable.ex_tree [112]) = Some PathTable.ex_built /\
+    PathTableLex.cmd_plain PowershellProofs.ps_plain PathTable.ex_built = true /\
+    PowershellModel.generate_powershell PowershellProofs.ascii_upper PathTable.ex_tree PathTable.ex_texts [112] = Some s1 /\
+    PowershellModel.generate_powershell PowershellProofs.ascii_upper PathTable.ex_tree PowershellProofs.ex_texts2 [112] = Some s2 /\
+    s1 <> s2.
+Proof. exact PowershellProofs.powershell_structure_nonvacuous. Qed.
+Print Assumptions C17_powershell_structure_nonvacuous.
+
+Theorem C17_powershell_quote_in_name_refuted :
+  exists c bin t1 t2 s1 s2,
+    PowershellModel.generate_powershell PowershellProofs.ascii_upper c t1 bin = Some s1 /\
+    PowershellModel.generate_powershell PowershellProofs.ascii_upper c t2 bin = Some s2 /\
+    skeleton (events ps_step PB s1) <> skeleton (events ps_step PB s2).
+Proof. exact PowershellProofs.powershell_quote_in_name_refuted. Qed.
+Print Assumptions C17_powershell_quote_in_name_refuted.
+(** the class stated on the SOURCE tree (what the user wrote) and the bin name: [Command::build] keeps a
+    tree in the class (the names it generates -- help, version, h, V -- and the space in bin names are plain) *)
+Theorem C17_elvish_generate_structure_src : forall c bin t1 t2 s1 s2,
+  PathTableLex.cmd_plain ElvishProofs.el_plain c = true -> PathTableLex.plainl ElvishProofs.el_plain bin = true ->
+  ElvishModel.generate_elvish c t1 bin = Some s1 -> ElvishModel.generate_elvish c t2 bin = Some s2 ->
+  skeleton (events el_step EB s1) = skeleton (events el_step EB s2) /\
+  final el_step EB s1 = final el_step EB s2.
+Proof. exact ElvishProofs.elvish_generate_structure_src. Qed.
+Print Assumptions C17_elvish_generate_structure_src.
+
+Theorem C17_powershell_generate_structure_src : forall up c bin t1 t2 s1 s2,
+  PathTableLex.cmd_plain PowershellProofs.ps_plain c = true -> PathTableLex.plainl PowershellProofs.ps_plain bin = true ->
+  PowershellModel.generate_powershell up c t1 bin = Some s1 ->
+  PowershellModel.generate_powershell up c t2 bin = Some s2 ->
+  skeleton (events ps_step PB s1) = skeleton (events ps_step PB s2) /\
+  final ps_step PB s1 = final ps_step PB s2.
+Proof. exact PowershellProofs.powershell_generate_structure_src. Qed.
+Print Assumptions C17_powershell_generate_structure_src.
+(* ---- end of the powershell / elvish block ---- *)
